@@ -121,6 +121,7 @@ func init() {
 					{Pkg: g, Fn: "VerifC13Pattern3", Reach: []string{"lexed"}, Bounds: b(3)},
 					{Pkg: g, Fn: "VerifC13ParseMessage", Reach: []string{"parsed"}},
 					{Pkg: g, Fn: "VerifC13MessageBraces4", Reach: []string{"lexed"}, Bounds: map[string]any{"text": "0..4 characters from the representative alphabet (braces included)"}},
+					{Pkg: g, Fn: "VerifC13TemplateTokens", Reach: []string{"generated"}, Bounds: map[string]any{"tokens": "$message $result $node $traceNode", "positions": "pattern, in value, message, validation name"}},
 				}
 			}
 			return []HarnessSpec{
@@ -131,6 +132,7 @@ func init() {
 				{Pkg: g, Fn: "VerifC13SetValues2", Reach: []string{"lexed"}, Bounds: b(2)},
 				{Pkg: g, Fn: "VerifC13Pattern2", Reach: []string{"lexed"}, Bounds: b(2)},
 				{Pkg: g, Fn: "VerifC13MessageBraces3", Reach: []string{"lexed"}, Bounds: map[string]any{"text": "0..3 characters from the representative alphabet (braces included)"}},
+				{Pkg: g, Fn: "VerifC13TemplateTokens", Reach: []string{"generated"}, Bounds: map[string]any{"tokens": "$message $result $node $traceNode", "positions": "pattern, in value, message, validation name"}},
 			}
 		},
 		Assumptions: []string{
@@ -224,7 +226,7 @@ func init() {
 		Rule: "one state = one feasible path: entry point x stub outcomes (gate lemma) or embedding position x symbolic code bytes (splice lemma); plus one native confirmation run of the built-in x position x syntax matrix",
 		Harnesses: func(tier string) []HarnessSpec {
 			return []HarnessSpec{
-				{Pkg: "internal/validator", Fn: "VerifC08Gate", Reach: []string{"compiled"}, Bounds: map[string]any{"entry_points": 3}},
+				{Pkg: "internal/validator", Fn: "VerifC08Gate", Native: "VerifC08GateNative", Reach: []string{"compiled"}, Bounds: map[string]any{"entry_points": 3}},
 				{Pkg: "internal/validator", Fn: "VerifC08Splice", Reach: []string{"spliced"}, Bounds: map[string]any{"code_len": "1..3 symbolic bytes (no $ or newline)", "positions": 8}},
 				{Pkg: "pkg", Fn: "VerifC08NativeMatrix", NativeOnly: true, Bounds: map[string]any{"builtins": 5, "positions": 9, "syntaxes": 3}},
 			}
@@ -276,7 +278,7 @@ func init() {
 		ID: "C12", Level: "translation_validation", Extra: regoC12,
 		Rule: "gosym: one state = one feasible path of BuildReport over a result tree of nondeterministic shape and one map-order policy; regosym: one program = one profile of the families, whose emitted module is evaluated on a symbolic graph and every result object it can produce is checked for shape",
 		Harnesses: func(tier string) []HarnessSpec {
-			return []HarnessSpec{{Pkg: "internal/validator", Fn: "VerifC12Ids", Reach: []string{"ids-defined"}, Bounds: map[string]any{"depth": "1..3", "traces_per_result": "1..2", "sub_results_per_trace": "0..2", "locations": "none|all", "results": "1..2 violations, 0..1 warnings", "map_orders": "canonical | all reversed | all rotated"}}}
+			return []HarnessSpec{{Pkg: "internal/validator", Fn: "VerifC12Ids", Reach: []string{"ids-defined"}, Bounds: map[string]any{"depth": "1..3", "traces_per_result": "1..2", "sub_results_per_trace": "0..2", "locations": "none|all", "results": "1..2 violations, 0..1 warnings, 0..1 infos", "map_orders": "canonical | all reversed | all rotated"}}}
 		},
 		Assumptions: []string{
 			"result trees are built from the three constructors the Rego preamble has (result, trace, location); the same shape parameters are used at every level of a tree (bound)",
